@@ -65,7 +65,54 @@ void exit(int status)
 }
 #endif
 
-#ifndef V_NO_STO_STUBS
+#if defined(V_STO_ARENA)
+/*
+ * Arena model of the storage manager (for units whose blocks are resized):
+ * blocks are carved from one static word array, never reused; resizing the
+ * most recent block is done in place (a legal realloc behaviour), any other
+ * block is moved.  Total allocation is bounded by V_STO_ARENA words -- the
+ * bound is an assumption of every query that selects this model.
+ * (CBMC's heap model with blocks of symbolic size ran out of memory on the
+ * 3-entry line table of srcpos.c; this model decides it in seconds.)
+ */
+static unsigned long v_arena[V_STO_ARENA];
+static unsigned long v_top, v_lastoff, v_lastw;
+#define V_HDR 1
+static void v_room(void)
+{
+#ifdef V_CBMC
+	__CPROVER_assume(v_top <= V_STO_ARENA);
+#else
+	if (v_top > V_STO_ARENA) { printf("REPLAY: arena exhausted\n"); exit(5); }
+#endif
+}
+MostAlignedType *stoAlloc(unsigned code, ULong size)
+{
+	unsigned long w = (size + 7) / 8;
+	(void)code;
+	v_lastoff = v_top + V_HDR; v_lastw = w;
+	v_top += V_HDR + w; v_room();
+	v_arena[v_lastoff - 1] = size;
+	return (MostAlignedType *) &v_arena[v_lastoff];
+}
+void stoFree(Pointer p) { (void)p; }
+ULong stoSize(Pointer p) { return ((unsigned long *)p)[-1]; }
+MostAlignedType *stoResize(Pointer p, ULong size)
+{
+	unsigned long w = (size + 7) / 8, i, oldw;
+	unsigned long *q;
+	if ((unsigned long *)p == &v_arena[v_lastoff]) {
+		v_top = v_lastoff + w; v_lastw = w; v_room();
+		v_arena[v_lastoff - 1] = size;
+		return (MostAlignedType *) p;
+	}
+	oldw = (stoSize(p) + 7) / 8;
+	q = (unsigned long *) stoAlloc(0, size);
+	for (i = 0; i < oldw && i < w; i++) q[i] = ((unsigned long *)p)[i];
+	return (MostAlignedType *) q;
+}
+#elif !defined(V_NO_STO_STUBS)
+
 /* store.h:  Pointer stoAlloc(unsigned code, ULong size) etc.
  * The size is remembered in a header word so that stoSize/stoResize work. */
 typedef ULong ULong_;
@@ -98,9 +145,9 @@ ULong stoSize(Pointer p)
 
 MostAlignedType *stoResize(Pointer p, ULong size)
 {
-	ULong_ old = stoSize(p), n = old < size ? old : size, i;
+	ULong_ old = stoSize(p), n = old < size ? old : size;
 	char *q = (char *) stoAlloc(0, size);
-	for (i = 0; i < n; i++) q[i] = ((char *)p)[i];
+	memcpy(q, p, n);
 	stoFree(p);
 	return (MostAlignedType *) q;
 }
